@@ -11,6 +11,9 @@ import hir
 from core import Unrecognised
 
 
+INT_TYS = {"u8", "u16", "u32", "u64", "u128", "usize", "i8", "i16", "i32", "i64", "i128", "isize"}
+
+
 class Return(Exception):
     def __init__(self, v):
         self.v = v
@@ -95,6 +98,24 @@ class Evaluator:
             except Unrecognised:
                 self._const_cache[path] = None
         return self._const_cache[path]
+
+    def _discr(self, variant):
+        """Discriminant of a fieldless enum variant (from the item facts)."""
+        if not hasattr(self, "_discrs"):
+            self._discrs = {}
+        if variant not in self._discrs:
+            self._discrs[variant] = None
+            enum, _, name = variant.rpartition("::")
+            crate = enum.split("::")[0]
+            try:
+                for it in self.facts.items(crate):
+                    if it.get("dk") == "Enum" and it.get("path") == enum:
+                        for v in it.get("variants", []):
+                            if v.get("name") == name and not v.get("fields") and isinstance(v.get("discr"), int):
+                                self._discrs[variant] = v["discr"]
+            except Exception:
+                pass
+        return self._discrs[variant]
 
     def oracle(self, key):
         if key not in self.choices:
@@ -254,6 +275,8 @@ class Evaluator:
                 pass
             if base is not None and base[0] == "rec" and e["name"] in base[1]:
                 return base[1][e["name"]]
+            if base is not None and base[0] == "ctor" and e["name"].isdigit() and int(e["name"]) + 2 < len(base):
+                return base[2 + int(e["name"])]
             raise Unrecognised(f"read of untracked place {ps}")
         if k == "index":
             b_ = hir.simp(e["e"])
@@ -299,7 +322,13 @@ class Evaluator:
         if k == "tuple":
             return ("tuple",) + tuple(self.ev(x, env) for x in e["es"])
         if k == "cast":
-            return self.ev(e["e"], env)
+            v = self.ev(e["e"], env)
+            if v[0] == "enum" and str(e.get("ty", "")) in INT_TYS:
+                d = self._discr(v[1])
+                if d is None:
+                    raise Unrecognised(f"discriminant of {v[1]} unknown")
+                return ("int", d)
+            return v
         if k in ("assign",):
             l = hir.simp(e["l"])
             if l.get("k") == "index":
